@@ -19,16 +19,16 @@ import Dassh.Gen.C09_15
 namespace Dassh.Gen.C09
 
 /-- number of layouts dumped in this run -/
-def nLayouts : Nat := 417
+def nLayouts : Nat := 129
 
 def allCerts : List Bool := Dassh.Gen.C09_0.certs ++ Dassh.Gen.C09_1.certs ++ Dassh.Gen.C09_2.certs ++ Dassh.Gen.C09_3.certs ++ Dassh.Gen.C09_4.certs ++ Dassh.Gen.C09_5.certs ++ Dassh.Gen.C09_6.certs ++ Dassh.Gen.C09_7.certs ++ Dassh.Gen.C09_8.certs ++ Dassh.Gen.C09_9.certs ++ Dassh.Gen.C09_10.certs ++ Dassh.Gen.C09_11.certs ++ Dassh.Gen.C09_12.certs ++ Dassh.Gen.C09_13.certs ++ Dassh.Gen.C09_14.certs ++ Dassh.Gen.C09_15.certs
 
 /-- the full 7-assembly core (layout s7_126): number of gap cells, adjacency table, exchange instance -/
-def fullNsc : Nat := 114
-def fullAdj : Nat := Dassh.Gen.C09_2.adj_s7_126_0
+def fullNsc : Nat := 99
+def fullAdj : Nat := Dassh.Gen.C09_8.adj_s7_126_0
 theorem full_exch {K : Type} [Field K] [LinearOrder K] [IsStrictOrderedRing K] (f : Nat → Nat → K) (hf : ∀ i j, f j i = - f i j) :
     ∑ c ∈ Finset.range fullNsc, ((Dassh.Table.row fullAdj 12 3 c).map (f c)).sum = 0 :=
-  Dassh.Gen.C09_2.exch_s7_126_0 f hf
+  Dassh.Gen.C09_8.exch_s7_126_0 f hf
 
 theorem all_ok : allCerts.all (· = true) = true := by
   simp only [allCerts, List.all_append, Bool.and_self, Dassh.Gen.C09_0.certs_ok, Dassh.Gen.C09_1.certs_ok, Dassh.Gen.C09_2.certs_ok, Dassh.Gen.C09_3.certs_ok, Dassh.Gen.C09_4.certs_ok, Dassh.Gen.C09_5.certs_ok, Dassh.Gen.C09_6.certs_ok, Dassh.Gen.C09_7.certs_ok, Dassh.Gen.C09_8.certs_ok, Dassh.Gen.C09_9.certs_ok, Dassh.Gen.C09_10.certs_ok, Dassh.Gen.C09_11.certs_ok, Dassh.Gen.C09_12.certs_ok, Dassh.Gen.C09_13.certs_ok, Dassh.Gen.C09_14.certs_ok, Dassh.Gen.C09_15.certs_ok]
